@@ -74,6 +74,7 @@ pub fn exec_rl(st: &mut State, name: &str, t: &[&str]) -> String {
             st.objs.insert(name.to_string(), Obj::Rl(v));
             return s;
         },
+        "ref" => return "ok".to_string(),
         "eq" => {
             let other = st.rl(t[1]).clone();
             return (*st.rl(name) == other).to_string();
@@ -92,7 +93,7 @@ pub fn exec_rl(st: &mut State, name: &str, t: &[&str]) -> String {
         "select0" => opt_usize(v.select_zero(parse_usize(t[1]))),
         "pred" => opt_pair(v.predecessor(parse_usize(t[1])).next()),
         "succ" => opt_pair(v.successor(parse_usize(t[1])).next()),
-        "ser" => words_to_string(&ser_words(v)),
+        "ser" | "doc" => words_to_string(&ser_words(v)),
         // all runs with the iterator's running offset / rank after each
         "runs" => {
             let mut it = v.run_iter();
